@@ -7,6 +7,21 @@ def repo_commits(prefix):
     return [l.split()[0] for l in out if l.split(" ", 1)[1].startswith(prefix)]
 
 CHECKS = {
+ "C05": ("generated send / receive / handle-clone / into-shared / release histories x thread schedules, incl. teardown with events still buffered, with a destructor-carrying payload; drop-ledger + address + waker-generation oracles; crashes of the library are caught by running the search in a supervised child process",
+         "Exploration: generated (workload, schedule) pairs on the Uni movable + zero-copy and Multi arc / ogre_arc kinds with a payload whose destructor reports to a ledger; exactly-once destruction, no destructor on garbage, payload intact while held, pooled storage not re-handed-out while held, no waker used after the channel dropped it, capacity restored; a third of the cases tear the channel down with leftovers.",
+         "The payload holds no pointer, so even a destructor running on freed/garbage memory is recorded rather than crashing; real memory corruption kills the supervised child and is reported with the in-flight case as replay. No AddressSanitizer build in this tier.", "6 C05"),
+ "C07": ("generated cancel_all_streams() placements x poll steps x sends x thread schedules on all 11 kinds; end-of-stream oracle decided at quiescence + id-reuse probe",
+         "Exploration: generated (workload, schedule) pairs with a canceller thread on every channel kind; every stream must have answered end-of-stream when nothing can run any more (parked = violation), nothing yielded after the end, ids reusable and running count exact after the streams are dropped.",
+         "Only cancel_all_streams() is driven under the controlled scheduler; ending one stream (gracefully_end_stream) is exercised by the tokio workload part.", "6 C07"),
+ "C16": ("generated retry workloads (several producers re-sending handed-back inputs against one slow consumer, buffer almost full) x thread schedules on the Uni kinds; ledger + interval rule for 'full' + bounded own steps + capacity probe",
+         "Exploration: generated (workload, schedule) pairs; a rejected send must leave nothing behind (never delivered, input handed back untouched), be justified by BUFFER_SIZE slots possibly taken at some instant of the call, return within a bounded number of the caller's own steps, and after all cycles exactly BUFFER_SIZE further sends are accepted.",
+         "crossbeam's setter-based sends are only generated while the buffer cannot fill (they wait by documented design).", "6 C16"),
+ "C17": ("generated listener creation / removal placements x one producer's fan-out x thread schedules on the six Multi kinds; prefix / suffix / exact ledger per listener role + capacity probe",
+         "Exploration: generated (churn, schedule) pairs with scheduling points inside the live-list rebuild and the fan-out loop; stable listeners exact, added = gapless suffix, removed = gapless prefix, no payload storage left occupied. Known finding R8 (concurrent rebuild vs fan-out on the arc / ogre_arc kinds) is keyed per kind / role / symptom and only for schedules where the rebuild overlapped a send.",
+         "See KNOWN_FINDINGS.txt: the R8 region stays checked for everything the finding cannot explain (invented / out-of-order events, panics, stalls, the mmap kind, non-overlapping schedules).", "6 C17"),
+ "C20": ("generated split async sends (begin / other operations / resume or never resume) x thread schedules on the 10 kinds implementing send_with_async; stall verdict decided by the scheduler + ledger + quiescence oracle",
+         "Exploration: generated (workload, schedule) pairs in which a setter stays suspended (1..3 polls, or for ever) while the same and other threads send, reserve, poll and query; a thread re-executing an operation that can only succeed once the suspended send completes is a decided stall (no timeout). Known finding R9 (both movable Uni kinds, by design) keyed per kind and stalled operation.",
+         "A stall is decided as: every runnable thread keeps failing the same atomic operation with no write by anybody in between. The final drain also runs under the scheduler.", "6 C20"),
  "C01": ("generated producer scripts x driven consumer streams x thread schedules on the five Uni channel kinds; delivery-ledger oracle (exactly-once, integrity, rejected inputs handed back untouched)",
          "Exploration: thousands of generated (workload, schedule) pairs per run on all five Uni kinds, BUFFER_SIZE 2/4/8, MAX_STREAMS 1/2/4, counters next to the u32 wrap, every entry point (send, send_with, send_with_async, reserve+send_reserved), under a scheduler that owns every interleaving of the library's atomic operations and of its plain slot accesses; verdict by an implementation-independent ledger. Nothing is proved; small sizes, SC interleavings.",
          "Trusted: the verif shim, the scheduler, the adapters. crossbeam's internals are not instrumented (its operations are atomic under the scheduler; interleavings between them are exposed by yield points).", "6 C01"),
